@@ -67,6 +67,17 @@ CHECKS = {
    note="Trusted: Coq kernel; extraction; OCaml float instance (IEEE double, printf %g/%.1f); generator renders one tree twice; drv_prog. Results the "
         "documentation does not fix (long overflow, float->integer out of range) are flagged by the interpreter and skipped.",
    technique="Coq proof (case analysis over the value universe) + extraction-based differential testing of generated programs"),
+ "C12": dict(
+   level=("proof", "Coq theorems (axiom-free) on the reference interpreter: int arithmetic of any two in-range operands yields an in-range int; long "
+          "arithmetic yields an in-range long or is flagged as outside the documentation; x % -1 = 0 for every x including the most negative long; "
+          "division and modulo by zero are always the documented runtime errors; an element is produced only for an index inside the array; every "
+          "well-typed operator application is a value or a documented error, never stuck. Memory safety, teardown and exception shape are run-time "
+          "behaviour the model cannot exhibit: they are observed (not proved) by running an edge corpus (every pair of extreme int/long operands under "
+          "every operator, extreme indices, out-of-range literals/sizes/conversions, empty arrays, recursion) and generated programs with extreme "
+          "literals on an ASan+UBSan build, through the harness and the real CLI, and comparing outcome with the interpreter (partial).", "DESIGN.md §6 C12"),
+   note="Trusted: Coq kernel; extraction; glue; sanitizer runtime. Signed-overflow/float-cast UBSan checks disabled (outside the documented range, not a crash). "
+        "Class-related crash surfaces are exercised by the C08/C11 generators on the same build when those checks run.",
+   technique="Coq proof (integer-range lemmas over Z) + sanitizer-instrumented differential execution and CLI shape check"),
  "C14": dict(
    level=("proof", "Coq theorems (axiom-free) on a model of the expression parser (assignment level, Pratt loop with the binding-power table, "
           "prefix, primary, casts, argument and array-literal lists): for every well-parenthesised tree over all expression forms, parsing its "
